@@ -20,6 +20,7 @@ Record lcase := {
   (* send_email (same flow), say_msg and play_audio (a voice flow run for the same contact and environment):
      base values, translations, and what was observed (None = the action was skipped with an error event) *)
   k_audio : text;                                   (* say_msg's base audio URL ("" = none) *)
+  k_play : text;                                    (* play_audio's base audio URL *)
   k_tr_subject : translations; k_tr_body : translations;
   k_tr_say_text : translations; k_tr_say_audio : translations; k_tr_play_audio : translations;
   (* every non-empty text of the message evaluates to "" (the harness uses an expression reading an unset field) *)
@@ -82,6 +83,17 @@ Fixpoint langs_eqb (a b : list lang) : bool :=
   | _, _ => false
   end.
 
+(* the attachment rule of say_msg / play_audio: "audio:" ++ url must not be longer than flows.MaxAttachmentLength
+   (2048) bytes; the harness's URLs are ASCII, so bytes = characters *)
+Definition keep_audio (a : text) : text := if Nat.ltb 2042 (length a) then [] else a.
+
+(* what evaluateMessage leaves of a chosen list: the harness's only unsendable values are "attachments" beginning
+   with "nope" (not of the form type:url) and the quick reply "@fields.caption" (evaluates to "") *)
+Definition nope : text := [110; 111; 112; 101].
+Definition empty_expr : text := [64; 102; 105; 101; 108; 100; 115; 46; 99; 97; 112; 116; 105; 111; 110].
+Definition keep_atts (l : list text) : list text := filter (fun a => negb (text_eqb (firstn 4 a) nope)) l.
+Definition keep_qrs (l : list text) : list text := filter (fun q => negb (text_eqb q empty_expr)) l.
+
 Definition base_lang : lang := 1.
 (* the fixed base values of the harness's flows: "subj", "body", "say", "http://x.io/play.mp3" *)
 Definition subj : text := [115; 117; 98; 106].
@@ -96,15 +108,14 @@ Definition check (k : lcase) : bool :=
   let m := {| m_text := k_text k; m_atts := k_atts k; m_qrs := k_qrs k;
               tr_text := k_tr_text k; tr_atts := k_tr_atts k; tr_qrs := k_tr_qrs k |} in
   let ev_text := if k_eval_empty k then (fun _ : text => @nil N) else (fun t : text => t) in
-  let idl := fun l : list text => l in
-  let o := evaluate_message_gen ev_text idl idl (k_clang k) (k_allowed k) base_lang m in
+  let o := evaluate_message_gen ev_text keep_atts keep_qrs (k_clang k) (k_allowed k) base_lang m in
   let args := case_arguments (k_clang k) (k_allowed k) base_lang (k_args k) (k_tr_args k) in
   let matched := texts_eqb args range_1_10 in
   let catl := category_localized (k_clang k) (k_allowed k) base_lang (k_tr_name k) in
   (* set_run_result: localized category, blanked when equal to the base category *)
   let sr := set_run_result_category_localized (k_clang k) (k_allowed k) base_lang cat (k_tr_cat k) in
   (* send_broadcast: the last content written per language, in language order *)
-  let bc := broadcast_translations_gen ev_text idl idl base_lang (k_loc_langs k) m in
+  let bc := broadcast_translations_gen ev_text keep_atts keep_qrs base_lang (k_loc_langs k) m in
   let recipients := [0; 1; 2; 3; 4] in
   let forc := map (fun rl => for_contact rl (k_allowed k) base_lang bc) recipients in
   text_eqb (o_text o) (k_o_text k) && texts_eqb (o_atts o) (k_o_atts k)
@@ -117,9 +128,9 @@ Definition check (k : lcase) : bool :=
   && langs_eqb (map o_lang forc) (k_o_forc_lang k)
   && email_eqb (send_email_texts (k_clang k) (k_allowed k) base_lang subj body (k_tr_subject k) (k_tr_body k))
                (k_o_email k)
-  && ivr_eqb (ivr_view (say_msg_out_gen ev_text (k_clang k) (k_allowed k) base_lang say (k_audio k)
+  && ivr_eqb (ivr_view (say_msg_out_gen ev_text keep_audio (k_clang k) (k_allowed k) base_lang say (k_audio k)
                                     (k_tr_say_text k) (k_tr_say_audio k))) (k_o_say k)
-  && ivr_eqb (ivr_view (play_audio_out (k_clang k) (k_allowed k) base_lang play_url (k_tr_play_audio k)))
+  && ivr_eqb (ivr_view (play_audio_out_gen (fun t => t) keep_audio (k_clang k) (k_allowed k) base_lang (k_play k) (k_tr_play_audio k)))
              (k_o_play k).
 
 (* indices of the cases on which model and implementation differ *)
